@@ -327,6 +327,70 @@ def limit_history(n1: int, n2: int, length: int) -> bool:
     return H.done(ok)
 
 
+# =============================================================== 2c. option levels: engine creation vs per statement
+LEVEL_LIMITS = [(None,), (-1,), (0,), (2,), (3,), (100,)]
+LEVEL_QUOTAS = [(None,), (-1,), (2000,), (1000000,)]
+QUOTA_TEXT = 'x' * 4000
+_LEVEL_ENGINES = {}
+
+
+def level_engine(lim, quota):
+    """engine created by the real factory with creation-time options (built once per combination, concretely)"""
+    with H.NoTracing():
+        key = (lim, quota)
+        if key not in _LEVEL_ENGINES:
+            o = {}
+            if lim is not None:
+                o['yaql.limitIterators'] = lim
+            if quota is not None:
+                o['yaql.memoryQuota'] = quota
+            _LEVEL_ENGINES[key] = FACTORY.create(options=o)
+        return _LEVEL_ENGINES[key]
+
+
+def limit_levels(ie: int, has_s: bool, n_s: int, iq: int, has_q: bool, q_s: int, how: int) -> bool:
+    """
+    pre: 0 <= ie < len(LEVEL_LIMITS) and 0 <= iq < len(LEVEL_QUOTAS) and -1 <= n_s <= 5 and 0 <= how < 2
+    pre: q_s in (-1, 3000, 500000)
+    pre: (iq == 0 and not has_q and q_s == -1) if H.P('part') == 'limit' else (ie == 0 and not has_s and n_s == -1)
+    pre: H.fresh(ie, has_s, n_s, iq, has_q, q_s, how)
+    post: _
+    """
+    # the two protection options given when the engine is created and again for one statement: the statement's win;
+    # an option given at neither level has its default (-1: unlimited)
+    n_e, q_e = LEVEL_LIMITS[ie][0], LEVEL_QUOTAS[iq][0]
+    eng = level_engine(n_e, q_e)
+    so = {}
+    if has_s:
+        so['yaql.limitIterators'] = n_s
+    if has_q:
+        so['yaql.memoryQuota'] = q_s
+    n = n_s if has_s else (-1 if n_e is None else n_e)
+    quota = q_s if has_q else (-1 if q_e is None else q_e)
+    length = 4
+    src = Counted(length)
+    c = ROOT.create_child_context()
+    c['s'] = src
+    c['t'] = QUOTA_TEXT
+    st = eng('$s', options=so) if how == 0 else eng.copy(so)('$s')
+    try:
+        res = st.evaluate(context=c)
+        raised = False
+    except yexc.CollectionTooLargeException:
+        raised, res = True, None
+    ok = raised == (0 <= n < length) and not src.blown and (n < 0 or src.pulls <= n + 1)
+    if not raised:
+        ok = ok and len(res) == length
+    st = eng('$t + $t', options=so) if how == 0 else eng.copy(so)('$t + $t')
+    try:
+        st.evaluate(context=c)
+        over = False
+    except yexc.MemoryQuotaExceededException:
+        over = True
+    ok = ok and over == (0 < quota < 8000)
+    return H.done(ok)
+
+
 # =============================================================== 3. registry sweep with an instrumented endless source
 def classify(label_or_text):
     """root-cause class (stable key) of a sweep case / expression template"""
@@ -880,6 +944,13 @@ def conditions(tier, seed):
     for ln in ([3] if q else [0, 1, 3, 5]):
         add('limit_history[len%d]' % ln, 'limit_history', 'two evaluations on one context and on functions with their own '
             'Iterable()/Iterator() type objects, engine limits n1 then n2 in [-1,4], source length %d' % ln, 240 if q else 600, len=ln)
+    add('limit_levels[limitIterators]', 'limit_levels', 'yaql.limitIterators absent or one of -1,0,2,3,100 at engine creation '
+        '(symbolic selector) and absent or any value in [-1,5] per statement, through engine(expr, options=...) and '
+        'engine.copy: a 4-element lazy result obeys the statement level, else the engine level, else the default', 240 if q else 600,
+        part='limit')
+    add('limit_levels[memoryQuota]', 'limit_levels', 'yaql.memoryQuota absent/-1/2000/10^6 at engine creation and '
+        'absent/-1/3000/500000 per statement, both routes: an 8000-character concatenation is refused exactly when the '
+        'effective quota is 2000 or 3000', 240 if q else 600, part='quota')
     # registry sweep
     cases = all_cases()
     labels = [c['label'] for c in cases]
@@ -994,6 +1065,16 @@ def replay(cond, args):
                         'expected %s' % (vals['n'], p['outer'], p['inner'], vals['outer_len'], vals['inner_len'],
                                          sorted(limited_lengths(build())), got,
                                          'CollectionTooLargeException' if 0 <= vals['n'] < max(limited_lengths(build())) else 'the value')}
+    if f == 'limit_levels':
+        n_e, q_e = LEVEL_LIMITS[vals['ie']][0], LEVEL_QUOTAS[vals['iq']][0]
+        return {'reproduced': True, 'key': 'C08/limit_levels',
+                'what': 'engine created with limitIterators=%r memoryQuota=%r, statement options %s through %s: a 4-element lazy '
+                        'sequence / an 8000-character concatenation do not obey the statement-level (else engine-level, else '
+                        'default) values%s'
+                        % (n_e, q_e, dict(([('limitIterators', vals['n_s'])] if vals['has_s'] else []) +
+                                          ([('memoryQuota', vals['q_s'])] if vals['has_q'] else [])),
+                           'engine(expr, options=...)' if vals['how'] == 0 else 'engine.copy(options)',
+                           ' (%r)' % err if err else '')}
     if f == 'limit_history':
         return {'reproduced': True, 'key': 'C08/limit_history',
                 'what': 'a context and functions declared with Iterable()/Iterator() used first with limitIterators=%d, then with '
